@@ -271,6 +271,21 @@ def run(ctx):
         one(ctx, pts, kind, queries, fam)
         if rng.random() < 0.5:
             rmse_mip(ctx, pts, gen.random_subset_with_ends(rng, n, rng.randrange(0, min(n - 2, 8) + 1)), fam)
+    long_cases(ctx)
+
+
+def long_cases(ctx):
+    """LONG curves (beyond 1024 / 4096 points) with many breakpoints and a shared cache over nested queries"""
+    rng = ctx.rng
+    for _ in range(2 if ctx.tier == 'quick' else 24):
+        n = rng.choice([rng.randrange(1100, 1800), rng.randrange(4097, 4600)])
+        xs = np.arange(n, dtype=float)
+        ys = np.round(65536.0 * np.exp(-0.001 * xs)) / 64.0 + np.array([rng.randrange(0, 8) / 8.0 for _ in range(n)]) + 1.0
+        pts = np.column_stack([xs, ys])
+        base = gen.random_subset_with_ends(rng, n, rng.randrange(10, 60))
+        qs = [base, sorted(set(base) | {rng.randrange(0, n) for _ in range(5)}), base, [0, n - 1]]
+        one(ctx, pts, rng.choice(KINDS), [[int(v) for v in q] for q in qs], 'long-trace', False)
+        rmse_mip(ctx, pts, [int(v) for v in base], 'long-trace', False)
 
 
 def replay(ctx, body):
